@@ -446,11 +446,23 @@ def blockwise_probe(ctx, drv, interp, n, sharing=False, extra=None):
         y = gr.new_act([1, 2, o])
         fco = s_.FullyConnectedOptionsT()
         fco.keepNumDims = True
+        relu = (not sharing) and ctx.rng.random() < 0.35
+        if relu:   # a fused RELU becomes a RELU operator of its own (and the result tensor is renamed <name>_relu)
+            fco.fusedActivationFunction = s_.ActivationFunctionType.RELU
         g.op(gm.BO.FULLY_CONNECTED, [src, w, b], [y], gm.OPT.FullyConnectedOptions, fco)
         gr.out(y, [1, 2, o])
-        variant = "plain"
+        variant = "plain" + ("_relu" if relu else "")
         regex = ".*"
         outs = []
+        if (not sharing) and ctx.rng.random() < 0.4:
+            # name hazards: the model already holds tensors named like the constants / tensors the pattern creates
+            wn, yn = g.sg.tensors[w].name.decode(), g.sg.tensors[y].name.decode()
+            for nm in ctx.rng.sample([wn + "_scale", wn + "_reduce_axes", yn + "_reshape_op1_shape", yn + "_reshape_op2_shape", yn + "_bmm_input",
+                                      yn + "_relu", yn + "_relu_relu_input", yn + "_reshape_op2_output"], ctx.rng.randint(1, 3)):
+                z = g.tensor(nm, [1, 2, o])
+                g.op(gm.BO.ABS, [y], [z], 0, None)
+                outs.append(z)
+            variant += "_name_hazard"
         if sharing:
             variant = ["dangling", "second_fc_float", "second_fc_same"][j % 3]
             buf = g.sg.tensors[w].buffer
